@@ -100,6 +100,25 @@ def writer_check(ctx, case, gt, sp, share=None):
             "written message differs from the contract: %s" % d[0],
             {"diffs": d})
     note_enums(ctx, sp, "enum_constants_written")
+    # the same objects written a second time after edits through public
+    # attributes: every field must follow the attribute as it is now
+    if rnd.random() < 0.5:
+        sp2, edits = irbuild.mutate_live(rnd, gt, sp, nodes, {},
+                                         rnd.randint(1, 4))
+        if edits:
+            actual2 = irio.message_data(gt, irio.save(ir))
+            exp2 = contract.canon(contract.resolve_aux(
+                contract.expected_message(sp2, gt), irio.aux_decoder))
+            ctx.count("writer:comparisons_after_edit")
+            for e in edits:
+                ctx.count("writer:edit:" + e.split(":")[0])
+            d = contract.diff(exp2, actual2)
+            if d:
+                raise Discrepancy(
+                    "C02", "writer-after-edit:" + irio.general_path(d[0]),
+                    "message written after edits (%s) differs from the "
+                    "contract: %s" % (", ".join(sorted(set(edits))), d[0]),
+                    {"diffs": d})
     if share is not None:
         with open(share, "wb") as f:
             f.write(raw)
